@@ -582,7 +582,8 @@ theorem legacyName_encodable (e : Encoding) (r : NameRec) (v : Str) (hl : r.luni
     · exact hq
     · exact ⟨b, hb, by omega⟩
 
-theorem name_roundtrip (mac e : Encoding) (he : e.Lawful)
+theorem name_roundtrip (mac e : Encoding)
+    (hd : ∀ s b, e.encode s = some b → ∃ s', e.decode b = some s')
     (hq : ∃ b, e.encode [0x3F] = some b ∧ b.length ≤ 255)
     (value : Str) (hs : PyStr value) (hn : NoPair value) (hlen : value.length < 256) (r0 : NameRec) :
     ∃ r1 lb ub, setName mac value r0 = .ok r1 ∧ writeName e r1 = .ok (lb, some ub) ∧
@@ -593,6 +594,7 @@ theorem name_roundtrip (mac e : Encoding) (he : e.Lawful)
   generalize hr1 : ({ legacy := if (mac.encode value).isSome then value else [0x3F], luni := some value } : NameRec) = r1 at hset
   have hl1 : r1.luni = some value := by rw [← hr1]
   obtain ⟨b, hb, hbl⟩ := legacyName_encodable e r1 value hl1 hq
+  obtain ⟨leg, hleg⟩ := hd _ b hb
   have hwp : writePascalString e (legacyName e r1) 4 = .ok (pascalLayout b 4) :=
     (writePascalString_eq _ _ _ _).mpr ⟨b, hb, hbl, by decide, rfl⟩
   have hul : (encUnits value).length < 4294967296 := by
@@ -602,10 +604,11 @@ theorem name_roundtrip (mac e : Encoding) (he : e.Lawful)
   · unfold writeName
     rw [hwp]; simp only [hl1, hwu]
   · intro pre post
-    have hrp := readPascalString_write e (legacyName e r1) 4 _ pre post (fun b' hb' => he _ _ hb') hwp
+    have hrp := readPascalString_layout e b 4 pre post hbl (by decide)
+    rw [hleg] at hrp
     obtain ⟨p, hru, _⟩ := readUnicodeString_value value 4 1 _ [] [] hn (by decide) hwu
     simp only [List.nil_append, List.append_nil, List.length_nil] at hru
-    refine ⟨{ legacy := legacyName e r1, luni := some value }, ?_, rfl, rfl⟩
+    refine ⟨{ legacy := leg, luni := some value }, ?_, rfl, rfl⟩
     unfold readName
     rw [hrp]; simp only [hru]
 
